@@ -22,7 +22,6 @@ import (
 	"fmt"
 	"os"
 	"os/exec"
-	"sort"
 	"strings"
 	"sync"
 	"time"
@@ -46,6 +45,16 @@ type caseSpec struct {
 	QuietMs  int    `json:"quiet_ms"` // no hook event for this long = hang
 	DeadMs   int    `json:"dead_ms"`  // overall deadline
 	MaxDelUs int    `json:"max_del_us"`
+	// Gates force a schedule: the hook point At ("<event>.<args joined by .>")
+	// blocks until the trace token or mark Until has been recorded.
+	Gates  []gate `json:"gates,omitempty"`
+	Strict bool   `json:"strict,omitempty"`
+	Name   string `json:"name,omitempty"`
+}
+
+type gate struct {
+	At    string `json:"at"`
+	Until string `json:"until"`
 }
 
 // caseResult is what the child reports.
@@ -122,6 +131,8 @@ func main() {
 		os.Exit(meshMain(os.Args[2:]))
 	case "one":
 		os.Exit(oneMain(os.Args[2:]))
+	case "witness":
+		os.Exit(witnessMain(os.Args[2:]))
 	default:
 		fmt.Fprintf(os.Stderr, "unknown mode %q\n", os.Args[1])
 		os.Exit(2)
@@ -254,13 +265,85 @@ func runChildOnce(self string, cs caseSpec) *caseResult {
 	return res
 }
 
-// ---------------------------------------------------------------- helpers
+// ---------------------------------------------------------------- witnesses
 
-func sortedKeys(m map[string]int) []string {
-	ks := make([]string, 0, len(m))
-	for k := range m {
-		ks = append(ks, k)
+// The three Lean negation witnesses (Props/C19.lean: deadlockRun,
+// earlyReturnRun, badListRun) as forced schedules of the real code.
+func witnessSpecs() []caseSpec {
+	base := func(name string, n, m int) caseSpec {
+		cs := caseSpec{Name: name, N: n, M: m, Mode: "seq", Profile: "none", Strict: true,
+			StartUs: make([]int, n), GapUs: make([]int, n), QuietMs: 2500, DeadMs: 20000}
+		for i := 1; i < n; i++ {
+			cs.Order = append(cs.Order, i)
+		}
+		return cs
 	}
-	sort.Strings(ks)
-	return ks
+	w1 := base("deadlock", 2, 1)
+	w1.Gates = []gate{{At: "connect.0", Until: "h.1"}, {At: "accepted.0.1.0", Until: "w.0.0.0"}}
+	w2 := base("early-return", 2, 2)
+	w2.Gates = []gate{{At: "connect.0", Until: "h.1"}, {At: "accepted.0.1.1", Until: "snap.0"}}
+	w3 := base("bad-list", 4, 1)
+	// Accept returns connections in the order they were established (the
+	// Join order); the hello of peer 1 is held back so that it is accepted last.
+	w3.Order = []int{2, 3, 1}
+	w3.Gates = []gate{{At: "connect.0", Until: "h.3"}, {At: "hello.3", Until: "h.2"},
+		{At: "hello.1", Until: "a.0.3.0"}, {At: "accepted.0.1.0", Until: "snap.0"}}
+	return []caseSpec{w1, w2, w3}
+}
+
+func witnessMain(args []string) int {
+	cf, o := hxlib.ParseCommon("c19", args, nil)
+	defer o.Close()
+	self, err := os.Executable()
+	if err != nil {
+		panic(err)
+	}
+	pid := os.Getpid()
+	for rep := 0; rep < cf.N; rep++ {
+		for wi, cs := range witnessSpecs() {
+			cs.Idx = rep*10 + wi
+			cs.Port = 10000 + ((pid*131+7*rep+wi+2000)%2750)*8
+			res := runChild(self, cs)
+			op := fmt.Sprintf("c19 %d %d %s strict", cs.N, cs.M, res.Trace)
+			fused := "-"
+			if res.Sbs == 0 {
+				fused = "ok"
+			}
+			o.Op(op, fmt.Sprintf("run=ok end=%s sbs=%d fused=%s", res.End, res.Sbs, fused))
+			o.Count("witness_sessions")
+			kinds := map[string]bool{}
+			for _, f := range res.Fails {
+				if k, ok := f["kind"].(string); ok {
+					kinds[k] = true
+				}
+				if k, _ := f["kind"].(string); k == "connect-error" {
+					kinds["connect-error:"+fmt.Sprint(f["errors"])] = true
+				}
+			}
+			ok := false
+			switch cs.Name {
+			case "deadlock":
+				ok = res.End == "deadlock" && kinds["hang"] && res.Sbs == 1
+			case "early-return":
+				ok = res.End == "final" && kinds["incomplete-at-return"] && res.Sbs == 1
+			case "bad-list":
+				ok = res.End == "error" && res.Sbs == 1
+				found := false
+				for k := range kinds {
+					if strings.Contains(k, "invalid peer ID 3") {
+						found = true
+					}
+				}
+				ok = ok && found
+			}
+			if ok {
+				o.Count("witness_" + cs.Name + "_reproduced")
+			} else {
+				o.Count("witness_" + cs.Name + "_not_reproduced")
+			}
+			o.Sample(map[string]any{"witness": cs.Name, "end": res.End, "sbs": res.Sbs, "trace": clip(res.Trace, 400),
+				"kinds": fmt.Sprint(kinds)})
+		}
+	}
+	return 0
 }
